@@ -698,6 +698,63 @@ def run_identities(run, progs, impl_exe):
                       {'kind': 'identity', 'name': name, 'program': src})
 
 
+# ---------------------------------------------------------------- format field widths (implementation alone; theorem owned by C19)
+
+def gen_format(rng):
+    """(form, program text, expected python str): %Ns / %-Ns / %Nc / %(k)Ns / %*s with widths around the
+    code-point, UTF-16 and UTF-8 lengths of the argument"""
+    form = rng.choice(['s', 's', '-s', 'c', '-c', 'ks', '-ks', '*s', '-*s'])
+    if 'c' in form:
+        s = rng.choice(TWO + THREE + FOUR + ['a', 'Z'])
+    else:
+        s = rand_str(rng, maxlen=6)
+        if rng.random() < 0.4:
+            s = ''.join(rng.choice(TWO + THREE + FOUR) for _ in range(rng.randint(1, 4)))
+    ncp, n16, n8 = len(s), len(s.encode('utf-16-le')) // 2, len(s.encode('utf-8'))
+    w = max(1, rng.choice([ncp, ncp + 1, ncp + 2, n16, n16 + 1, n16 - 1, n8, n8 + 1, n8 - 1, ncp - 1, 2 * n8, rng.randint(1, 12)]))
+    left = form.startswith('-')
+    exp = s.ljust(w) if left else s.rjust(w)
+    minus = '-' if left else ''
+    kind = form.lstrip('-')
+    if kind == 's':
+        src = '"%%%s%ds" %% %s' % (minus, w, lit_str(s, rng))
+        if rng.random() < 0.3:
+            src = 'std.format("%%%s%ds", [%s])' % (minus, w, lit_str(s, rng))
+    elif kind == 'c':
+        arg = str(ord(s)) if rng.random() < 0.6 else lit_str(s, rng)
+        src = '"%%%s%dc" %% %s' % (minus, w, arg)
+    elif kind == 'ks':
+        src = '"%%(k)%s%ds" %% {k: %s}' % (minus, w, lit_str(s, rng))
+    else:
+        src = '"%%%s*s" %% [%d, %s]' % (minus, w, lit_str(s, rng))
+    return form, src, exp
+
+
+def run_formats(run, progs, impl_exe):
+    """progs: (cid, form, program, expected)"""
+    lines = ['%s\teval\tstr=1\t%s' % (cid, hxl(list(src.encode('utf-8')))) for cid, form, src, exp in progs]
+    impl = vlib.run_sharded(impl_exe, lines, timeout=300)
+    for cid, form, src, exp in progs:
+        run.evaluations += 1
+        run.count('format_' + form)
+        r = impl.get(cid, 'NOOUTPUT')
+        f = r.split('\t')
+        replay = {'kind': 'format', 'form': form, 'program': src, 'expected': vlib.cps(exp), 'impl': r[:300]}
+        if f[0] != 'OK':
+            run.violation('format-width-crash', 'field-width program fails: %s -> %s' % (src, r[:120]), replay)
+            continue
+        got = vlib.uncps(f[1])
+        if got != exp:
+            core = exp.strip(' ') if exp.strip(' ') else exp
+            run.violation('format-width-not-code-points',
+                          'field width must count code points: %s gives %r (%d code points), expected %r (%d code points, '
+                          'argument has %d code points / %d UTF-16 units / %d UTF-8 bytes)'
+                          % (src, got, len(got), exp, len(exp), len(core), len(core.encode('utf-16-le')) // 2, len(core.encode('utf-8'))), replay)
+        elif any(ord(ch) > 0x7f for ch in exp) and exp != exp.strip(' '):
+            run.nontrivial.add(('format', src))
+
+
+
 def corpus_cases():
     out = []
     path = os.path.join(vlib.VERIF, 'corpus', 'c18_calls.txt')
@@ -755,7 +812,9 @@ def check(run):
                 '2^31, 2^32, 2^53, 2^63, 2^64, 2^64+4096, 1e300; ~7% wrong-type arguments.  non-trivial = distinct (function, arguments) '
                 'with a successful result and at least one non-ASCII character in a string argument.  identities: compound programs '
                 '(join/split, findSubstr/substr, reverse/reverse, char/codepoint, length, substr/slice, splitLimit(R), strip, stringChars'
-                ') that must evaluate to true on the implementation.')
+                ') that must evaluate to true on the implementation.  format: %Ns, %-Ns, %Nc, %(k)Ns, %*s with widths around the '
+                'code-point / UTF-16 / UTF-8 lengths of the argument: the result must be the argument padded with spaces to max(N, code points) '
+                '(theorem: C19_pad_reaches_width, owned by C19).')
     run.assume = ["Rust std str::find/split/splitn/rsplitn/replace/trim_matches/strip_prefix/strip_suffix/starts_with/ends_with/"
                   "to_ascii_uppercase/chars behave as documented (specified on code points in Model/StrFns.v; modelled, not verified)",
                   'a byte-level substring match between two well-formed UTF-8 strings is a code-point-level match (self-synchronisation)',
@@ -782,6 +841,14 @@ def check(run):
         name, src = gen_identity(rng)
         progs.append(('i%d' % i, name, src))
     run_identities(run, progs, impl_exe)
+    nf = 1200 if run.tier == "quick" else 12000
+    fprogs = [('f0', 's', '"%4s" % "\u00e9\u00e9"', '  \u00e9\u00e9'), ('f1', 's', '"%3s" % "\u20ac"', '  \u20ac'),
+              ('f2', '-s', '"%-6s" % "\U0001f60e\U0001f60e"', '\U0001f60e\U0001f60e    '), ('f3', 'c', '"%3c" % 128526', '  \U0001f60e'),
+              ('f4', 'ks', '"%(k)2s" % {k: "\u044f"}', ' \u044f'), ('f5', '*s', '"%*s" % [3, "\u00e9"]', '  \u00e9')]
+    for i in range(nf):
+        form, src, exp = gen_format(rng)
+        fprogs.append(('fg%d' % i, form, src, exp))
+    run_formats(run, fprogs, impl_exe)
 
 
 def replay(run, path):
@@ -794,6 +861,8 @@ def replay(run, path):
         run_cases(run, [('r0', r['fn'], args, r['program'])], impl_exe, model_exe, 'replay')
     elif isinstance(r, dict) and r.get('kind') == 'identity':
         run_identities(run, [('r0', r['name'], r['program'])], impl_exe)
+    elif isinstance(r, dict) and r.get('kind') == 'format':
+        run_formats(run, [('r0', r['form'], r['program'], vlib.uncps(r['expected']))], impl_exe)
     else:
         print('replay file names a broken obligation, not an input:', json.dumps(j.get('no_longer_checks', j), indent=1)[:2000])
         pres = vlib.prove(ID, THEOREMS, ALLOWED_AXIOMS)
